@@ -83,7 +83,7 @@ func (b *Body) Read(p []byte) (int, error) {
 // (nil for a clean EOF).
 func ReadAllSized(r io.Reader, sizes []int, yieldEvery int, label string) ([]byte, error) {
 	var out []byte
-	i := 0
+	i, empty := 0, 0
 	max := 32 * 1024
 	for _, s := range sizes {
 		if s > max {
@@ -114,7 +114,12 @@ func ReadAllSized(r io.Reader, sizes []int, yieldEvery int, label string) ([]byt
 		if err != nil {
 			return out, err
 		}
-		if i > 1<<22 {
+		// no progress = a long run of reads that deliver neither data nor an
+		// error; the number of reads as such is no criterion (a range of more
+		// than 4 MiB drained with a 1-byte read schedule needs more than 1<<22)
+		if n > 0 {
+			empty = 0
+		} else if empty++; empty > 1<<16 {
 			return out, io.ErrNoProgress
 		}
 	}
